@@ -119,6 +119,9 @@ def regen():
             raise BuildError("translator %s failed:\n%s" % (sub, p.stdout[-3000:]))
         if write_if_changed(os.path.join(COQ, "Gen", fn), p.stdout):
             changed.append(fn)
+    import serde_gen
+    if write_if_changed(os.path.join(COQ, "Gen", "SerdeGen.v"), serde_gen.gen_v()):
+        changed.append("SerdeGen.v")
     import instrs
     if write_if_changed(os.path.join(COQ, "Gen", "AsmGen.v"), instrs.gen_asm_v()):
         changed.append("AsmGen.v")
@@ -316,8 +319,9 @@ class Report:
             path = os.path.join(REPLAYS, "%s-%s.json" % (self.pid, h))
             with open(path, "w") as f:
                 json.dump(dict(replay, property=self.pid, what=what, seed=self.seed), f, indent=1)
-            lines.append("VIOLATION property=%s replay=%s%s" %
-                         (self.pid, path, " no-failing-input-found" if no_input else ""))
+            l = "VIOLATION property=%s replay=%s%s" % (self.pid, path, " no-failing-input-found" if no_input else "")
+            if l not in lines:
+                lines.append(l)
         ev = {
             "property_id": self.pid, "tier": self.tier, "seed": self.seed, "level": self.level,
             "coverage": self.coverage, "assumptions": self.assumptions,
